@@ -129,7 +129,13 @@ def sensitivity(only=None, tier="quick", patch_dir=None, keep_going=True):
                 env = dict(os.environ, VERIF_REPO=wt, VERIF_REPLAY_DIR=os.path.join(tmp, "replays"),
                            VERIF_EVIDENCE_DIR=os.path.join(tmp, "evidence"))
                 env.pop("PYTHONPATH", None)
-                r = subprocess.run([os.path.join(orchestrator.VERIF, "bin", "check"), pid, "--tier", tier],
+                mtier = tier
+                if "_THOROUGH_" in name:
+                    # needs a fault kind only the thorough tier injects (interrupted calls): 5 min of it
+                    mtier = "thorough"
+                    env["VERIF_BUDGET_S"] = env.get("VERIF_BUDGET_S", "300")
+                rec["tier"] = mtier
+                r = subprocess.run([os.path.join(orchestrator.VERIF, "bin", "check"), pid, "--tier", mtier],
                                    capture_output=True, text=True, env=env, timeout=3600)
                 viol = [l for l in r.stdout.splitlines() if l.startswith("VIOLATION")]
                 rec["exit"] = r.returncode
